@@ -14,9 +14,10 @@ from sa.model import load_repo
 
 root = sys.argv[1] if len(sys.argv) > 1 else "/repo"
 repo = load_repo(root)
-out = {"functions": [], "globals": {}, "class_attrs": {}}
+out = {"functions": [], "globals": {}, "class_attrs": {}, "imports": {}}
 for rel, m in sorted(repo.modules.items()):
     out["globals"][rel] = sorted(m.globals)
+    out["imports"][rel] = dict(sorted(m.imports.items()))
     for fi in m.all_functions():
         out["functions"].append(fi.key)
     for cn, ci in m.classes.items():
